@@ -28,6 +28,7 @@ type Engine struct {
 	initFacts []initFact
 	initDone  bool
 	roMemo    map[*ssa.Global]bool
+	findings  []Finding
 }
 
 type initFact struct {
@@ -320,6 +321,7 @@ type Enc struct {
 	relMu       sync.Mutex
 	topAtRefs   map[string][]Term
 	jsonSeen    map[string]bool
+	wsMemo      map[*ssa.Function]map[string]bool
 	boxTypes    map[string]types.Type
 }
 
